@@ -24,22 +24,30 @@ open S3V S3V.Secrets S3V.SecretsSpec S3V.Gen.Emit
 /-! ## rendering of `SecretKey` -/
 
 /-- **[model, on the extracted bodies]** for every secret `s`, `{:?}` of `SecretKey(s)` is the constant
-    `SecretKey("<placeholder>")` and its serde rendering is the constant `"<placeholder>"`, where
-    `<placeholder>` is the literal of `const PLACEHOLDER` in `auth/secret_key.rs` -/
+    `SecretKey("<placeholder>")`, its serde rendering in a human-readable format (JSON) is the constant
+    `"<placeholder>"`, and its rendering in a format that is not human readable (strings as length-prefixed
+    bytes) is the constant length-prefixed `<placeholder>` — where `<placeholder>` is the literal of
+    `const PLACEHOLDER` in `auth/secret_key.rs` -/
 theorem C16_secret_render_constant (s : Bytes) :
     renderDebug secretKeyDebug s
       = [83, 101, 99, 114, 101, 116, 75, 101, 121, 40] ++ debugStr placeholder ++ [41]   -- SecretKey( … )
-    ∧ secretKeySerialize.map (fun b => renderSerializeJson b s) = some (jsonStr placeholder) :=
-  ⟨rfl, rfl⟩
+    ∧ secretKeySerialize.map (fun b => renderSerializeJson b s) = some (jsonStr placeholder)
+    ∧ secretKeySerialize.map (fun b => renderSerializeBinary b s) = some (lenPrefixed placeholder) :=
+  ⟨rfl, rfl, rfl⟩
 
-/-- **[model]** hence both renderings are constant functions of the secret -/
+/-- **[model]** hence all three renderings are constant functions of the secret -/
 theorem C16_secret_render_independent :
     Constant (renderDebug secretKeyDebug)
-    ∧ ∀ b, secretKeySerialize = some b → Constant (renderSerializeJson b) := by
-  refine ⟨fun s₁ s₂ => ?_, fun b hb s₁ s₂ => ?_⟩
+    ∧ ∀ b, secretKeySerialize = some b → Constant (renderSerializeJson b) ∧ Constant (renderSerializeBinary b) := by
+  refine ⟨fun s₁ s₂ => ?_, fun b hb => ⟨fun s₁ s₂ => ?_, fun s₁ s₂ => ?_⟩⟩
   · rw [(C16_secret_render_constant s₁).1, (C16_secret_render_constant s₂).1]
-  · have h₁ := (C16_secret_render_constant s₁).2
-    have h₂ := (C16_secret_render_constant s₂).2
+  · have h₁ := (C16_secret_render_constant s₁).2.1
+    have h₂ := (C16_secret_render_constant s₂).2.1
+    rw [hb] at h₁ h₂
+    simp only [Option.map_some, Option.some.injEq] at h₁ h₂
+    rw [h₁, h₂]
+  · have h₁ := (C16_secret_render_constant s₁).2.2
+    have h₂ := (C16_secret_render_constant s₂).2.2
     rw [hb] at h₁ h₂
     simp only [Option.map_some, Option.some.injEq] at h₁ h₂
     rw [h₁, h₂]
@@ -65,7 +73,8 @@ theorem C16_renderings_do_not_disclose (hex b64 : Bytes → Bytes)
     (hhex : ∀ b, b.length ≤ (hex b).length) (hb64 : ∀ b, b.length ≤ (b64 b).length)
     (s : Bytes) (hs : 35 < s.length) :
     ¬ Leaks hex b64 s (renderDebug secretKeyDebug s)
-    ∧ ∀ b, secretKeySerialize = some b → ¬ Leaks hex b64 s (renderSerializeJson b s) := by
+    ∧ ∀ b, secretKeySerialize = some b →
+        ¬ Leaks hex b64 s (renderSerializeJson b s) ∧ ¬ Leaks hex b64 s (renderSerializeBinary b s) := by
   have hform : ∀ f ∈ forms hex b64 s, 35 < f.length := by
     intro f hf
     simp only [forms, List.mem_cons, List.not_mem_nil, or_false] at hf
@@ -74,10 +83,16 @@ theorem C16_renderings_do_not_disclose (hex b64 : Bytes → Bytes)
     rcases hf with rfl | rfl | rfl | rfl | rfl | rfl <;> omega
   have hd : (renderDebug secretKeyDebug s).length = 35 := by
     rw [(C16_secret_render_constant s).1]; rfl
-  refine ⟨fun ⟨f, hf, hi⟩ => ?_, fun b hb ⟨f, hf, hi⟩ => ?_⟩
+  refine ⟨fun ⟨f, hf, hi⟩ => ?_, fun b hb => ⟨fun ⟨f, hf, hi⟩ => ?_, fun ⟨f, hf, hi⟩ => ?_⟩⟩
   · exact not_infix_of_length_lt (by rw [hd]; exact hform f hf) hi
   · have hj : (renderSerializeJson b s).length = 24 := by
-      have h := (C16_secret_render_constant s).2
+      have h := (C16_secret_render_constant s).2.1
+      rw [hb] at h
+      simp only [Option.map_some, Option.some.injEq] at h
+      rw [h]; rfl
+    exact not_infix_of_length_lt (by rw [hj]; have := hform f hf; omega) hi
+  · have hj : (renderSerializeBinary b s).length = 26 := by
+      have h := (C16_secret_render_constant s).2.2
       rw [hb] at h
       simp only [Option.map_some, Option.some.injEq] at h
       rw [h]; rfl
@@ -213,6 +228,9 @@ example : siteClean taintEnv
     { file := .f_s3s_src_ops_signature_rs, line := 0, fn := some .i_check, owner := none,
       kind := .debug, inTest := false,
       captures := [{ sigil := .disp, idents := [.i_secret_key, .i_expose] }] } = false := by decide +kernel
+/-- a `Serialize` body that redacts only for human-readable formats is recognised and is NOT constant -/
+example : renderSerializeBinary (.strIf (.const [88]) .inner) [97] ≠ renderSerializeBinary (.strIf (.const [88]) .inner) [98] := by
+  decide
 /-- a `Debug` body that printed the inner string would not be constant -/
 example : renderDebug (.tuple [83] [.inner]) [97] ≠ renderDebug (.tuple [83] [.inner]) [98] := by decide
 /-- both verdicts occur in the emission model (accepted when the client's signature is the MAC, rejected otherwise) -/
